@@ -211,6 +211,8 @@ def gen_span(rng):
 
 NON_TIME = ["3 m", "2 kg", "(1 m/s)", "1 s^2", "1 Hz", "(1 m / 1 m)", "5 A", "1 K", "(1/2) m", "2.5 kg", "(1 s / 1 s)",
             "1 J", "(3 m * 1 s)", "1 s^-1", "(1 s)^2", "60 km/h", "1 mol", "1 cd",
+            # dimensionless units and signatures that cancel, with whole and fractional magnitudes
+            "3 rad", "2 sr", "1 dozen", "2 B", "8 b", "1 hundred", "3 m|m", "(6 m / 2 m)", "90 deg", "(1/2) dozen", "2.5 rad", "(3 s / 1 s)",
             # zero base-unit magnitude: still not a time span
             "0 m", "0.0 kg", "(0/3) J", "(3 m - 3 m)", "(2 km - 2000 m)", "(0-273.15) degC", "0 dozen", "0 K", "(0 m / 1 s)", "0 s^2"]
 
@@ -554,10 +556,12 @@ def _check_main(ctx):
 
     # ---------------------------------------------------------------- non-time quantities
     def do_non_time(L, qtext):
+        # qtext comes from NON_TIME: not a time span BY CONSTRUCTION (never ask the code under test what the operand is —
+        # a result-simplification that turns a dimensionless quantity into a plain number would hide exactly these cases)
         Q = quantity(qtext)
-        if Q is None or Q.qv == T.SECONDS:
+        if Q is not None and Q.qv == T.SECONDS:
             return
-        magc, dimc = num_canon(Q.mag), dim_text(Q.qv)
+        magc, dimc = (num_canon(Q.mag), dim_text(Q.qv)) if Q is not None else (None, None)
         for op, text in (("addq", "%s + %s" % (L.ka, qtext)), ("qadd", "%s + %s" % (qtext, L.ka)),
                          ("subq", "%s - %s" % (L.ka, qtext))):
             res = run(text); a = canon(res)
